@@ -1,5 +1,5 @@
 \* C16 view machine, thorough tier. Constants: Big = TRUE (relation slice over 4 types, wrappings up
-\* to depth 5, full alphabets). Measured: 5126 schemas, 10252 distinct states, depth 2, ~2 min
+\* to depth 5, full alphabets). Measured: 5368 schemas (242 of them SliceText), 10736 distinct states, depth 2, ~2-3 min
 \* with -workers 1 (most of it enumerating the relation slice).
 CONSTANTS
     Big = TRUE
